@@ -223,6 +223,9 @@ class Check:
         os.makedirs(os.path.join(VERIF, 'replays'), exist_ok=True)
         os.makedirs(CASEDIR, exist_ok=True)
         self.known_findings = [k for k in load_known() if k.get('property') == prop]
+        import glob
+        for old in glob.glob(os.path.join(VERIF, 'replays', prop + '-*.json')):
+            os.unlink(old)
 
     # ------------------------------------------------------------------ budget
     def n(self, quick, thorough):
